@@ -3,7 +3,7 @@
 Obligations: T-invfilters (getter selectors, resolve_target_contracts, sender restriction,
 resolve_target_selectors regenerated from __main__.py), T-stateid (snapshot_state, the digest behind
 get_state_id, regenerated from cheatcodes.py), T-storedigest (StorageData.digest regenerated from
-sevm.py), Props/C15.vo, lint, extraction.
+sevm.py), T-pathslice (Path._get_related, the dependency update of Path.append, Path.slice regenerated from sevm.py; Exec.path_slice shape-checked), Props/C15.vo, lint, extraction.
 Ties:
   X-C15-stateid (inside L3): for the setUp state and every successful end state of every target
       transaction of every L3 run, the components of the state are read off the Exec (term ids, code
@@ -39,11 +39,11 @@ KNOWN = common.known_for("C15")  # entries live in /verif/known_findings.json
 ASSUMPTIONS = [
     "C15_cover / C15_pass_sound are conditional on their visible hypotheses: per-transaction completeness of the symbolic engine (property C02), completeness of the invariant's own run, and the merge hypothesis (equal state ids stand for the same concrete states, also w.r.t. the setUp state) -- the latter is refuted for block fields and for the setUp timestamp (C15_merge_identical_refuted, C15_merge_setup_refuted) and the refutations are reproduced on the real code",
     "state ids: C15_state_id_identical / C15_cover_snapshot assume collision-free hashes (xxh3_64 / xxh3_128 as injective functions into abstract digest types: a visible hypothesis), one storage-key shape per run (uniform_keys: visible hypothesis) and hash-consed terms (equal id = same term); a hash input is modelled as the list of its fixed-width items (32-byte words from int.to_bytes(_, length=32), 16-byte storage digests), not as bytes; CPython id() reuse for code objects and z3 AST id reuse are not modelled",
-    "the slice (Path.sliced, computed by Exec.path_slice / Path._get_related) is an input of the state-id model; it is checked on every recorded state against a lower bound computed independently from the terms (every condition mentioning a symbol of the balance or of a stored value is in the slice), its dependency closure only end to end (branch-cond-related-* cases)",
+    "the slice: Path._get_related / the dependency update of Path.append / Path.slice are regenerated and proved to give exactly the BACKWARD dependency closure of the state variables (C15_slice_exact); that this is smaller than the constraints on the state is a machine-checked witness (C15_slice_closure_refuted) reproduced on the real code (known finding). The variables of a term (Path.get_var_set, z3) and the sources of the state variables in Exec.path_slice (balance, symbolic code chunks, stored values: shape-checked by the translator) are inputs of the model: on every recorded state the symbols are recomputed from the z3 terms by the harness and the model's slice is compared with Path.sliced",
     "the reference interpreter (Spec/Evm.v) is the EVM oracle; vm.roll/fee/chainId/warp in handlers are given their Foundry meaning by the harness (the block field changes for the rest of the sequence)",
     "the extracted model and driver are faithful to the Coq definitions (extraction is trusted)",
 ]
-PARTIAL = ("the symbolic engine and the timestamp refresh are parameters of the frontier model (tied by feeding the model the outcomes recorded from the real run); the state id is the regenerated snapshot_state over the recorded components of each state, the slice being recorded, not recomputed; "
+PARTIAL = ("the symbolic engine and the timestamp refresh are parameters of the frontier model (tied by feeding the model the outcomes recorded from the real run); the state id is the regenerated snapshot_state over the components recorded for each state (term ids, code identities, storage items, condition ids, slice), the slice the regenerated Path.slice over the recorded symbols of each condition; the two are not composed in one Coq function (term ids vs. symbols); "
            "--early-exit, multiple invariant tests sharing the cached frontier and solver timeouts are not modelled")
 
 TEST = 0x7FA9385BE102AC3EAC297483DD6233D62B3E1496
@@ -618,8 +618,8 @@ QUICK_CORPUS = {
     "sender-excluded", "sender-targeted", "sender-target-minus-excluded", "not-sender-targeted2",
     "test-contract-not-targeted", "test-contract-selector-targeted",
     "value-needed", "time-after-other-call", "F9-roll", "setup-merge-time", "F12-probe", "value-balance",
-    "branch-cond-arg-small", "branch-cond-arg-big", "branch-cond-arg-d3", "branch-cond-arg-late-store", "branch-cond-arg-eq",
-    "branch-cond-caller-eq", "branch-cond-caller-ne", "branch-cond-value", "branch-cond-unrelated",
+    "branch-cond-arg-small", "branch-cond-arg-big", "branch-cond-arg-d3", "branch-cond-arg-late-store",
+    "branch-cond-caller-eq", "branch-cond-value", "branch-cond-unrelated",
     "branch-cond-related-lo", "branch-cond-related-hi", "branch-cond-forward-lo", "branch-cond-forward-hi",
 }
 
@@ -675,7 +675,7 @@ def run(rep, tier):
     rep.coverage["l3_case_seconds"] = {c["name"]: o.get("seconds") for c, (st, o) in zip(cases, res) if st == "ok"}
     rep.coverage["known_in_module"] = [k["id"] for k in KNOWN]
     return rep.finish(
-        checker_cmd="make -C coq Props/C15.vo (coq_makefile, coqc 8.16.1) after regenerating coq/Gen/GenInvFilters.v from /repo/src/halmos/__main__.py, coq/Gen/GenStateId.v from cheatcodes.py and coq/Gen/GenStorageDigest.v from sevm.py",
+        checker_cmd="make -C coq Props/C15.vo (coq_makefile, coqc 8.16.1) after regenerating coq/Gen/GenInvFilters.v from /repo/src/halmos/__main__.py, coq/Gen/GenStateId.v from cheatcodes.py, coq/Gen/GenStorageDigest.v and coq/Gen/GenPathSlice.v from sevm.py",
         trusted_base=common.TRUSTED_BASE_COMMON + ["harness/asm.py + harness/c15_l3.py (assembler and fabricated forge artifacts), the stub `forge`", "coq/Spec/Evm.v extracted (reference interpreter) as the EVM oracle of the brute force"],
         assumptions=ASSUMPTIONS,
         partial=PARTIAL,
